@@ -14,8 +14,10 @@ import (
 	"net/http/httptest"
 	"os"
 	"runtime"
+	"strconv"
 	"strings"
 	"sync"
+	"sync/atomic"
 	"testing"
 	"time"
 
@@ -92,6 +94,78 @@ func settle() (n int, sample string, total int) {
 }
 
 // ---------------------------------------------------------------------------------------------------------------------
+// the second oracle, for timers: a timer that is left armed and whose firing would do nothing is invisible in a goroutine
+// dump, but it keeps what its function refers to reachable: the execution, and through it the caller's context. Every core
+// execution runs under a context carrying a token with a finalizer; once everything has returned and the caller's contexts
+// have been ended, the tokens must become unreachable. A Timeout that does not stop its timer keeps them for the time limit.
+
+type token struct {
+	pad   [8]uint64 // not a tiny allocation: those are finalized in groups
+	freed *atomic.Int64
+}
+
+type tokenKey struct{}
+
+type tokenSet struct{ made, freed atomic.Int64 }
+
+var currentTokens = &tokenSet{}
+
+func (ts *tokenSet) ctx() context.Context {
+	tk := &token{freed: &ts.freed}
+	ts.made.Add(1)
+	runtime.SetFinalizer(tk, func(tk *token) { tk.freed.Add(1) })
+	return context.WithValue(context.Background(), tokenKey{}, tk)
+}
+
+// The runtime removes a stopped timer from its per-P heap lazily (when stopped timers exceed a quarter of that heap, and
+// only when that P next looks at its timers), so a few tokens of correctly stopped timers may linger: the bound is
+// tokenSlack, and heaps are merged onto one P (which drops stopped timers) before giving up.
+var tokenSlack = func() int64 {
+	if v, err := strconv.Atoi(os.Getenv("VERIF_TOKEN_SLACK")); err == nil {
+		return int64(v)
+	}
+	return 4
+}()
+
+var tokenStats struct {
+	lingering, merged, maxLeft atomic.Int64
+	hist                       [10]atomic.Int64
+}
+
+func judgeReleased(t harness.TB, test string, ts *tokenSet, scenario any, desc string) {
+	deadline := harness.Wait(15 * time.Second)
+	for i := 0; ; i++ {
+		runtime.GC()
+		time.Sleep(time.Millisecond) // finalizers run on their own goroutine
+		left := ts.made.Load() - ts.freed.Load()
+		if i == 0 {
+			tokenStats.hist[min(left, 9)].Add(1)
+		}
+		if left <= tokenSlack {
+			if left > 0 {
+				tokenStats.lingering.Add(1)
+			}
+			if left > tokenStats.maxLeft.Load() {
+				tokenStats.maxLeft.Store(left)
+			}
+			if i >= 3 {
+				tokenStats.merged.Add(1)
+			}
+			return
+		}
+		if deadline.Expired() {
+			harness.Violation(t, prop, test, "execution-still-reachable", scenario, "%s: %d of %d executions' contexts are still reachable after everything returned, the caller's contexts were ended and the collector ran (slack for lazily removed stopped timers: %d): something the library armed still refers to them", desc, left, ts.made.Load(), tokenSlack)
+		}
+		if i >= 2 {
+			n := runtime.GOMAXPROCS(1)
+			runtime.Gosched()
+			time.Sleep(200 * time.Microsecond)
+			runtime.GOMAXPROCS(n)
+		}
+	}
+}
+
+// ---------------------------------------------------------------------------------------------------------------------
 // core scenarios: executions that start goroutines and timers (async runner, hedge attempts, timeout and delay timers,
 // bulkhead / limiter waits), ended by success, failure, rejection, timeout or cancellation
 
@@ -146,7 +220,7 @@ func runCore(sc coreScenario) (cleanup func()) {
 				pols = append(pols, rl)
 			}
 		}
-		ctx, cancel := context.WithCancel(context.Background())
+		ctx, cancel := context.WithCancel(currentTokens.ctx())
 		ex := failsafe.NewExecutor[int](pols...).WithContext(ctx)
 		calls := 0
 		var cmu sync.Mutex
@@ -648,9 +722,19 @@ func TestLeaks(t *testing.T) {
 	const test = "TestLeaks"
 	st := harness.NewStats(test)
 	defer st.Flush()
+	defer func() {
+		st.Count("core_scenarios_with_some_context_lingering_within_slack", int(tokenStats.lingering.Load()))
+		st.Count("core_scenarios_released_only_after_merging_timer_heaps", int(tokenStats.merged.Load()))
+		st.Count("max_contexts_lingering", int(tokenStats.maxLeft.Load()))
+		for i := range tokenStats.hist {
+			st.Count(fmt.Sprintf("contexts_reachable_after_first_collection=%d", i), int(tokenStats.hist[i].Load()))
+		}
+	}()
 	settle()
 	rapid.Check(t, func(t *rapid.T) {
 		_, _, before := settle()
+		tokens := &tokenSet{}
+		currentTokens = tokens
 		kind := rapid.SampledFrom([]string{"core", "core", "core", "http", "http", "grpc", "compose"}).Draw(t, "kind")
 		var sc any
 		nt := false
@@ -709,6 +793,10 @@ func TestLeaks(t *testing.T) {
 			defer cleanup()
 			judge(t, test, before, sc, kind)
 		}()
+		cleanup = nil
+		if kind == "core" {
+			judgeReleased(t, test, tokens, sc, kind)
+		}
 		b, _ := json.Marshal(sc)
 		st.Case(kind+string(b), nt, "kind="+kind)
 		if nt {
@@ -801,9 +889,13 @@ func TestRegress(t *testing.T) {
 		case bytes.Contains(data, []byte(`"fn_dur_us"`)):
 			var c coreScenario
 			_ = json.Unmarshal(data, &c)
+			tokens := &tokenSet{}
+			currentTokens = tokens
 			cl := runCore(c)
 			judge(t, "TestRegress", before, c, f)
 			cl()
+			cl = nil
+			judgeReleased(t, "TestRegress", tokens, c, f)
 		default:
 			continue
 		}
